@@ -529,6 +529,10 @@ pub fn run(args: &Args, rep: &mut Report) {
     let pki2 = pki.clone();
     let seed = args.seed;
     let shard = (args.shard, args.nshards);
+    // valgrind 3.19 does not model the AES-GCM assembly of *ring* (the crypto of rustls 0.20-0.22): everything those
+    // servers encrypt counts as uninitialised and the peer's tag comparison is reported. The valgrind layer therefore
+    // leaves the three ring-based adapters out (native layer and ASan layer drive them).
+    let no_ring = args.extra_u64("noring", 0) == 1;
     let res = std::thread::spawn(move || {
         let sys = actix_rt::System::with_tokio_rt(|| tokio::runtime::Builder::new_current_thread().enable_all().start_paused(true).build().unwrap());
         sys.block_on(async move {
@@ -536,6 +540,9 @@ pub fn run(args: &Args, rep: &mut Report) {
             let mut out: Vec<(String, Option<Fail>)> = Vec::new();
             let mut case_no = 0u64;
             for kind in MAIN_KINDS.into_iter().chain(OTHER_KINDS) {
+                if no_ring && matches!(kind, Kind::Rustls20 | Kind::Rustls21 | Kind::Rustls22) {
+                    continue;
+                }
                 let main = MAIN_KINDS.contains(&kind);
                 // 1. learn the byte positions of a successful handshake
                 let chunks = match accept_case(kind, Client::CompleteRustls, Duration::from_secs(3), pki2.clone(), seed, &mut seen).await {
@@ -624,6 +631,9 @@ pub fn run(args: &Args, rep: &mut Report) {
     let mut r = Rng::new(args.seed ^ 0xC18).fork(args.shard);
     let mut i = 0u64;
     for kind in MAIN_KINDS.into_iter().chain(OTHER_KINDS) {
+        if no_ring && matches!(kind, Kind::Rustls20 | Kind::Rustls21 | Kind::Rustls22) {
+            continue;
+        }
         for limit in 1..=3usize {
             for _ in 0..(if MAIN_KINDS.contains(&kind) { n_gate } else { n_gate_other }) {
                 i += 1;
